@@ -12,6 +12,9 @@ From Fiano Require Import Base.Bytes Base.BytesLemmas Base.GoInt Gen.GoKernels M
 From Coq Require Import ZifyBool ZifyNat.
 Open Scope Z_scope.
 
+(* a changed kernel must make a tie lemma FAIL, not make a conversion check run for an hour *)
+Set Default Timeout 120.
+
 (* FirmwareImage.PhysAddrToOffset: uint64(basePhysAddr - len(img)) goes through int; the signed
    wrap disappears under the conversion to uint64.  All image lengths, all addresses. *)
 Lemma go_FirmwareImage_PhysAddrToOffset_tie img addr :
